@@ -10,5 +10,6 @@ for id in "$@"; do
   echo "== $id exit=$code :: $(echo "$out" | grep -E "quick:|BUILD-FAILED" | tail -1)"
   echo "$out" | grep -E "signature=" | sort | uniq -c | sort -rn | head -4
 done
-git -C /repo checkout -- . 
+git -C /repo apply -R "$patch" || echo "REVERT FAILED"
 git -C /repo status --short | head -3
+./check --build >/dev/null 2>&1
